@@ -14,6 +14,7 @@ corpus         every GSUB/GPOS/GDEF of the corpus x configuration lattice; HarfB
 from mc import env  # noqa: F401
 from mc.kernel import Unit
 
+import atexit
 import collections
 import glob
 import io
@@ -107,6 +108,12 @@ class TLCRun:
             ["tlc", "-workers", "1", "-noGenerateSpecTE", "-metadir", os.path.join(self.tmp, "meta"),
              "-dump", "dot,actionlabels", os.path.join(self.tmp, "graph"), "-deadlock", "Repacker"],
             cwd=self.tmp, env=e, stdout=subprocess.PIPE, stderr=subprocess.STDOUT, text=True)
+        atexit.register(self.cleanup)
+
+    def cleanup(self):
+        if self.proc.poll() is None:
+            self.proc.kill()
+        shutil.rmtree(self.tmp, ignore_errors=True)
 
     def result(self):
         try:
@@ -984,7 +991,7 @@ class Overflow(Unit):
         ["ran " + f for f in ("splitPairPos", "splitMarkBasePos", "splitSinglePos", "splitLigatureSubst", "splitMultipleSubst", "splitAlternateSubst")]
         + ["extension promotion ran (fixLookupOverFlows)", "DontShare set before splitting", "hb repacker produced the result", "hb.repack failed, pure-python packing of the hb graph used",
            "FT_FALLBACK state entered", "OTLOffsetOverflowError surfaced for an unsplittable table", "out: lookup promoted to extension", "out: more subtables than built",
-           "second compile after in-memory split: same shaping", "compaction produced several subtables", "PairPos2 split with class renumbering read back"]
+           "second compile after in-memory split: same shaping", "second compile under the other repacker: different bytes, same shaping", "compaction produced several subtables", "PairPos2 split with class renumbering read back"]
         + ["%s: %s" % (k, w) for k in sorted({fam_key(p["fam"], p["base"]) for p in PRIMARY}) for w in ("below boundary packs without resolution", "above boundary needs resolution")])
 
     def setup(self, tier, seed):
@@ -1137,25 +1144,36 @@ class Overflow(Unit):
         if fam == "pairpos2" and calls["splitPairPos:ok"]:
             rec.witness("PairPos2 split with class renumbering read back")
 
-        # compiling must leave the in-memory table semantically unchanged
-        try:
-            data2, err2, calls2 = self.compile_spied(tbl, font)
-        except _Runaway:
-            rec.violation("overflow:second-compile-does-not-terminate:%s" % fkey_fam, "second compile of %s %s [repacker=%s ext=%s]" % (fam, kn, hbc, ext))
-            return
-        if err2 is not None:
-            rec.violation("overflow:second-compile-fails:%s" % fkey_fam, "%s %s [repacker=%s ext=%s level=%s]: first compile succeeded, compiling the same object again raises %r" % (fam, kn, hbc, ext, level, err2))
-            return
-        if data2 != data:
-            rec.count("second compile: different bytes")
-            bad2, n2 = self.run_checks(tag, data2, cks)
-            rec.evals(n2)
-            if bad2:
-                k, g, e, o = bad2[0]
-                rec.violation("overflow:second-compile-shaping:%s" % fkey_fam,
-                              "%s %s [repacker=%s ext=%s level=%s]: the table left in memory by the first compile shapes differently: %d of %d checks; first: %s input %s"
-                              % (fam, kn, hbc, ext, level, len(bad2), n2, k, g), observed=o, expected=e)
+        # compiling must leave the in-memory table semantically unchanged: compile the same object again,
+        # once unchanged and once under the opposite repacker setting, and read every rule back
+        other = "None" if hbc == "False" else "False"
+        rounds = [("same configuration", hbc)]
+        if nfix or side in ("above", "stuck"):  # the first compile changed the object, or the other packer has to resolve on its own
+            rounds.append(("repacker=%s" % other, other))
+        for again, hb2 in rounds:
+            font.cfg[HB_OPT] = _CFGV[hb2]
+            try:
+                data2, err2, calls2 = self.compile_spied(tbl, font)
+            except _Runaway:
+                rec.violation("overflow:second-compile-does-not-terminate:%s" % fkey_fam, "second compile (%s) of %s %s [first: repacker=%s ext=%s]" % (again, fam, kn, hbc, ext))
                 return
+            rec.transition(calls2["fixLookupOverFlows"] + calls2["fixSubTableOverFlows"])
+            if err2 is not None:
+                rec.violation("overflow:second-compile-fails:%s" % fkey_fam, "%s %s [repacker=%s ext=%s level=%s]: first compile succeeded, compiling the same object again (%s) raises %r"
+                              % (fam, kn, hbc, ext, level, again, err2))
+                return
+            if data2 != data:
+                rec.count("second compile (%s): different bytes" % ("same cfg" if hb2 == hbc else "other repacker"))
+                bad2, n2 = self.run_checks(tag, data2, cks)
+                rec.evals(n2)
+                if bad2:
+                    k, g, e, o = bad2[0]
+                    rec.violation("overflow:second-compile-shaping:%s" % fkey_fam,
+                                  "%s %s [repacker=%s ext=%s level=%s]: the table left in memory by the first compile, compiled again (%s), shapes differently: %d of %d checks; first: %s input %s"
+                                  % (fam, kn, hbc, ext, level, again, len(bad2), n2, k, g), observed=o, expected=e)
+                    return
+                if hb2 != hbc:
+                    rec.witness("second compile under the other repacker: different bytes, same shaping")
         if nfix and [(l.LookupType, len(l.SubTable)) for l in tbl.table.LookupList.Lookup] != built:
             rec.witness("second compile after in-memory split: same shaping")
 
@@ -1284,21 +1302,37 @@ class SeqShaper:
     """Shapes a fixed, completely enumerated set of glyph sequences; results are kept as digests
     per (script, direction, feature set, batch) so that two fonts can be compared batch by batch."""
 
-    def __init__(self, alphabet, outsider, maxlen, plans, pair_cap=None, triple_cap=None):
+    def __init__(self, alphabet, outsider, maxlen, plans, pair_cap=None):
         self.sep = outsider
-        A = list(alphabet) + [outsider]
-        groups = [[a] for a in A]
-        A2 = A if pair_cap is None or len(A) <= pair_cap else A[:pair_cap] + [outsider]
-        if maxlen >= 2:
-            groups += [[a, b] for a in A2 for b in A2]
-        if maxlen >= 3 and (triple_cap is None or len(A) <= triple_cap):
-            groups += [[a, b, c] for a in A for b in A for c in A]
-        self.groups = groups
+        self.A = list(alphabet) + [outsider]
+        self.A2 = self.A if pair_cap is None or len(self.A) <= pair_cap else self.A[:pair_cap] + [outsider]
+        self.maxlen = maxlen
         self.plans = plans  # [(script ot tag, direction, features dict)]
         self.batch = 4000
+        self.ngroups = len(self.A) + (len(self.A2) ** 2 if maxlen >= 2 else 0) + (len(self.A) ** 3 if maxlen >= 3 else 0)
+
+    def groups(self):
+        """All sequences, shortest first (generated, never stored)."""
+        it = [((a,) for a in self.A)]
+        if self.maxlen >= 2:
+            it.append(itertools.product(self.A2, repeat=2))
+        if self.maxlen >= 3:
+            it.append(itertools.product(self.A, repeat=3))
+        return itertools.chain(*it)
 
     def nseq(self):
-        return len(self.groups) * len(self.plans)
+        return self.ngroups * len(self.plans)
+
+    def nbatches(self):
+        return (self.ngroups + self.batch - 1) // self.batch
+
+    def batches(self):
+        it = self.groups()
+        while True:
+            part = list(itertools.islice(it, self.batch))
+            if not part:
+                return
+            yield part
 
     def _shape(self, hbfont, seq, plan):
         script, direction, feats = plan
@@ -1311,39 +1345,36 @@ class SeqShaper:
         hb.shape(hbfont, buf, feats)
         return [(i.codepoint, i.cluster, p.x_advance, p.y_advance, p.x_offset, p.y_offset) for i, p in zip(buf.glyph_infos, buf.glyph_positions)]
 
-    def batches(self):
-        for b0 in range(0, len(self.groups), self.batch):
-            yield b0, self.groups[b0:b0 + self.batch]
-
-    def digest(self, data):
-        face = hb.Face(hb.Blob(data))
-        font = hb.Font(face)
-        out = []
-        for plan in self.plans:
-            for _b0, part in self.batches():
-                seq = []
-                for g in part:
-                    seq.extend(g)
-                    seq.append(self.sep)
-                out.append(hash(tuple(self._shape(font, seq, plan))))
-        return out
-
-    def first_difference(self, data_a, data_b, index):
-        """Locate a minimal differing sequence inside batch `index` (failure path only)."""
-        nb = (len(self.groups) + self.batch - 1) // self.batch
-        plan = self.plans[index // nb]
-        b0 = (index % nb) * self.batch
-        fa, fb_ = hb.Font(hb.Face(hb.Blob(data_a))), hb.Font(hb.Face(hb.Blob(data_b)))
-        for g in self.groups[b0:b0 + self.batch]:
-            ra, rb = self._shape(fa, g, plan), self._shape(fb_, g, plan)
-            if ra != rb:
-                return plan, g, ra, rb
-        part = self.groups[b0:b0 + self.batch]
+    def _flat(self, part):
         seq = []
         for g in part:
             seq.extend(g)
             seq.append(self.sep)
-        return plan, "batch of %d sequences starting %s (differs only in context)" % (len(part), part[0]), None, None
+        return seq
+
+    def digest(self, data):
+        font = hb.Font(hb.Face(hb.Blob(data)))
+        out = []
+        for plan in self.plans:
+            for part in self.batches():
+                out.append(hash(tuple(self._shape(font, self._flat(part), plan))))
+        return out
+
+    def first_difference(self, data_a, data_b, index):
+        """Locate a minimal differing sequence inside batch `index` (failure path only)."""
+        nb = self.nbatches()
+        plan = self.plans[index // nb]
+        part = next(itertools.islice(self.batches(), index % nb, None))
+        fa, fb_ = hb.Font(hb.Face(hb.Blob(data_a))), hb.Font(hb.Face(hb.Blob(data_b)))
+        for g in part:
+            ra, rb = self._shape(fa, list(g), plan), self._shape(fb_, list(g), plan)
+            if ra != rb:
+                return plan, list(g), ra, rb
+        seq = self._flat(part)
+        ra, rb = self._shape(fa, seq, plan), self._shape(fb_, seq, plan)
+        k = next((i for i, (x, y) in enumerate(zip(ra, rb)) if x != y), 0)
+        lo = max(0, (ra[k][1] if k < len(ra) else 0) - 6)
+        return plan, "in context only: glyphs %s" % seq[lo:lo + 14], ra[max(0, k - 3):k + 4], rb[max(0, k - 3):k + 4]
 
 
 class Corpus(Unit):
